@@ -164,6 +164,40 @@ def scn_shared_site_pattern(T, base, variants):
     return scn
 
 
+def scn_states_vs_partials_rescaled(tree_s, K, batch, cols):
+    """tip-state and tip-partial representations of the same determinate data give the same value ALSO in rescaling mode and with a sample
+    dimension (incl. sample shape == number of rate categories): the two real rescaled pruning functions on the same symbolic matrices"""
+    import ast as _ast
+    tree = _ast.literal_eval(tree_s)
+    T = tree_s.count(",") + 1
+    batch = tuple(batch)
+
+    def scn(mk):
+        import contracts.C03 as C03
+        from torchtree.evolution import tree_likelihood as tl
+        from vt.stubs import symbolic_factories
+        S = 2
+        post = trees.postorder_triples(tree, T)
+        mats = mk.real("P", batch + (2 * T - 2, K, S, S), lo=0)
+        freqs = mk.real("pi", (1, S), lo=0)
+        props = mk.real("w", (K, 1, 1), lo=0)
+        N = len(cols[0])
+        weights = mk.real("wt", (N,), lo=0)
+        states = [torch.tensor(cols[i], dtype=torch.long) for i in range(T)]
+        onehot = [torch.tensor([[1.0 if cols[i][n] == s_ else 0.0 for n in range(N)] for s_ in range(S)], dtype=torch.float64) for i in range(T)]
+        if mk.symbolic:
+            onehot = [mk.lift(t) for t in onehot]
+        pl = [list(p) for p in post]
+        counter = [0]
+        extra = {"max": C03._max_contract(mk, counter)} if mk.symbolic else None
+        with symbolic_factories(tl, extra=extra, enabled=mk.symbolic):
+            a = tl.calculate_treelikelihood_tip_states_discrete_rescaled(list(states) + [None] * (T - 1), weights, [list(p) for p in pl], mats, freqs, props)
+            b = tl.calculate_treelikelihood_discrete_rescaled(list(onehot) + [None] * (T - 1), weights, [list(p) for p in pl], mats, freqs, props)
+        return [("true", "same_shape", tuple(a.shape) == tuple(b.shape), "%s vs %s" % (tuple(a.shape), tuple(b.shape))),
+                ("eq", "tip_states_equal_tip_partials_when_rescaled", a, b)]
+    return scn
+
+
 def _reroot(tree, target):
     """nested-tuple tree re-rooted on the branch above `target` subtree (a sub-tuple or leaf of tree)"""
     # path from root to target
@@ -383,6 +417,11 @@ def obligations(tier, seed):
         obs.append(scenario_ob("C02", "C02.shared_site_pattern[T=4,order=%s]" % ",".join("+".join(sorted(v)) + "=" + str(list(v.values())[0]) for v in vs), "V",
                                "scn_shared_site_pattern", (4, base4, vs), clause="a shared SitePattern / the declaration order of the models does not change the likelihood",
                                funcs=FUNCS, seed=seed, fns={"P": lambda t, i, j: C01._pfun(t, i, j, 4)}))
+    for ts_, K_, b_ in (("((0,1),2)", 2, ()), ("((0,1),2)", 2, (2,)), ("((0,1),2)", 2, (3,)), ("((0,1),(2,3))", 3, (3,)), ("(0,(1,(2,3)))", 1, (2,))):
+        T_ = ts_.count(",") + 1
+        obs.append(scenario_ob("C02", "C02.tip_states_vs_partials.rescaled[tree=%s,K=%d,batch=%s]" % (ts_, K_, b_), "V", "scn_states_vs_partials_rescaled",
+                               (ts_, K_, b_, [[(i + n) % 2 for n in range(2)] for i in range(T_)]),
+                               clause="tip states ≡ tip partials in rescaling mode, with a sample dimension", funcs=FUNCS, seed=seed))
     obs.append(ob_keep_branch_lengths(tier, seed))
     obs.append(ob_datatype_consistency())
     obs.append(ob_reroot_numeric(seed))
